@@ -51,6 +51,7 @@ def main(argv):
                 mod.run(prog, rep, tier)
                 if tier == "thorough" and hasattr(mod, "thorough"):
                     mod.thorough(prog, rep)
+                rep.check_pins()
             except model.AnalysisError as e:
                 # a violation that was positively identified before the analysis got stuck is
                 # still a violation; otherwise this is an honest "cannot decide"
